@@ -428,4 +428,380 @@ Section Stripe.
         apply (find_none _ _ E) in Hin. simpl in Hin. rewrite Nat.eqb_refl in Hin. discriminate.
     Qed.
   End Acc.
+
+  (* ---- the fault channel ----
+     `faults` lets the harness inject a read outcome per disk.  Two injected outcomes are not outcomes of
+     sync_data_reader on a file block and are excluded: RdNone (the zero buffer of an EMPTY/DELETED slot) and
+     RdOk with a length different from file_block_size (handle_read returns exactly that length or fails).
+     Every other injection (any RdOk content, RdErrCont, RdIoCont, RdFatal) is allowed.  The two excluded cases
+     really break the statement: see fault_rdnone_breaks / fault_len_breaks in SyncProofsLoop.v. *)
+  Definition fault_wf (s : slot) (fo : option rd) : Prop :=
+    match s, fo with
+    | SFile f idx b, Some RdNone => False
+    | SFile f idx b, Some (RdOk _ len) => len = block_len bs (cf_size f) idx
+    | _, _ => True
+    end.
+  Definition faults_wf (c : content) (pos : nat) (faults : list (option rd)) : Prop :=
+    forall j, fault_wf (slot_of c pos j) (nth j faults None).
+
+  Lemma view_fault_wf s s' fo : sview_of s' = sview_of s -> fault_wf s fo -> fault_wf s' fo.
+  Proof. destruct s, s'; simpl; intro H; inversion H; subst; auto. Qed.
+  Lemma same_views_faults_wf c c' pos faults : same_views c c' pos -> faults_wf c pos faults -> faults_wf c' pos faults.
+  Proof. intros [_ Hv] H j. eapply view_fault_wf; [apply Hv | apply H]. Qed.
+
+  Lemma rd_file c fs faults pos j f i b :
+    fault_wf (slot_of c pos j) (nth j faults None) -> slot_of c pos j = SFile f i b ->
+    x_fatal (SFile f i b) (ss_rd c fs faults pos j) = false ->
+    x_err (SFile f i b) (ss_rd c fs faults pos j) = false ->
+    x_io (SFile f i b) (ss_rd c fs faults pos j) = false ->
+    exists blk, ss_rd c fs faults pos j = RdOk blk (block_len bs (cf_size f) i).
+  Proof.
+    intros Hwf Hs. unfold ss_rd. rewrite Hs in *. unfold read_slot.
+    destruct (nth j faults None) as [r|].
+    - simpl in Hwf. destruct r; simpl; intros; try congruence; try contradiction. subst. eexists; reflexivity.
+    - destruct (nth j fs None) as [d|]; simpl; [|intros; congruence].
+      destruct (find_fs (cf_name f) d) as [ff|]; simpl; [|intros; congruence].
+      match goal with |- context [if ?c then _ else _] => destruct c end; simpl; intros; try congruence.
+      eexists; reflexivity.
+  Qed.
+  Lemma rd_nonfile c fs faults pos j :
+    slot_has_file (slot_of c pos j) = false -> ss_rd c fs faults pos j = RdNone.
+  Proof. unfold ss_rd. destruct (slot_of c pos j); simpl; intro H; try discriminate; reflexivity. Qed.
+
+  Lemma nth_vec_of rds j : nth j (vec_of rds) 0%N = match nth j rds RdNone with RdOk b _ => b | _ => 0%N end.
+  Proof. unfold vec_of. exact (map_nth (fun r => match r with RdOk b _ => b | _ => 0%N end) rds RdNone j). Qed.
+  Lemma nth_ss_rds c fs faults pos j :
+    j < length (c_disks c) -> nth j (ss_rds c fs faults pos) RdNone = ss_rd c fs faults pos j.
+  Proof. intro H. unfold ss_rds. apply nth_map_seq. rewrite slots_length. exact H. Qed.
+  Lemma length_ss_rds c fs faults pos : length (ss_rds c fs faults pos) = length (c_disks c).
+  Proof. unfold ss_rds. rewrite map_length, seq_length. apply slots_length. Qed.
+
+  (* ---- on-the-fly repair: what a successful repair returns ---- *)
+  Definition of_isblk (sl : list slot) (j : nat) : bool :=
+    match nth j sl SEmpty with SFile _ _ b => bstate_eqb (fb_state b) SBlk | _ => false end.
+  Definition of_sorted (sl : list slot) (failed : list (nat * N)) : list (nat * N) :=
+    filter (fun jl => existsb (fun f => Nat.eqb (fst f) (fst jl)) failed)
+           (map (fun j => (j, match find (fun f => Nat.eqb (fst f) j) failed with Some f => snd f | None => 0%N end))
+                (seq 0 (length sl))).
+
+  Lemma onthefly_spec sl rds failed newhash par vec :
+    onthefly hashf nlev sl rds failed newhash par = Some vec ->
+    exists v,
+      vec = map (fun j => if of_isblk sl j && existsb (fun jl => Nat.eqb (fst jl) j) (of_sorted sl failed)
+                          then nth j v 0%N else nth j (vec_of rds) 0%N) (seq 0 (length (vec_of rds)))
+      /\ forall jl, In jl (of_sorted sl failed) -> of_isblk sl (fst jl) = true ->
+           match nth (fst jl) sl SEmpty with
+           | SFile _ _ b => hashf (nth (fst jl) v 0%N) (snd jl) = fb_hash b
+           | _ => True
+           end.
+  Proof.
+    unfold of_sorted, of_isblk, onthefly. cbv zeta. intro H.
+    match type of H with (if ?c then _ else _) = Some _ => destruct c eqn:E0; [discriminate H|] end.
+    match type of H with match ?u with _ => _ end = Some _ => destruct u as [|[v| |] rest]; try discriminate H end.
+    match type of H with (if ?c then _ else _) = Some _ => destruct c eqn:E1; [|discriminate H] end.
+    match type of H with (if ?c then _ else _) = Some _ => destruct c eqn:E2; [|discriminate H] end.
+    injection H as H. exists v. split; [symmetry; exact H|].
+    rewrite forallb_forall in E2. intros jl Hin Hb. specialize (E2 jl Hin).
+    destruct (nth (fst jl) sl SEmpty) as [|f i b|h]; auto.
+    rewrite Hb in E2. apply hval_eqb_eq. exact E2.
+  Qed.
+
+  (* ---- the vector of a completed stripe ---- *)
+  Section Vec.
+    Variables (o : sopts) (iob : nat) (c : content) (par : list penc) (fs : list (option fsdisk))
+              (faults : list (option rd)) (pos : nat).
+    Let A := ss_A o iob c fs faults pos.
+    Let n := length (c_disks c).
+    Let S j := slot_of c pos j.
+    Let R j := ss_rd c fs faults pos j.
+    Let rds := ss_rds c fs faults pos.
+    Let fixed := ss_fixed A c par fs faults pos.
+    Hypothesis Hbail : a_bail A = false.
+    Hypothesis Hwf : faults_wf c pos faults.
+    Hypothesis Hpro : ss_proceed A fixed = true.
+
+    Lemma pro_flags : a_err A = false /\ a_io A = false /\ (a_silent A = false \/ exists v, fixed = Some v).
+    Proof.
+      unfold ss_proceed in Hpro. apply andb_true_iff in Hpro. destruct Hpro as [H1 H3].
+      apply andb_true_iff in H1. destruct H1 as [H1 H2].
+      apply negb_true_iff in H1. apply negb_true_iff in H2. split; [exact H1|]. split; [exact H2|].
+      apply orb_true_iff in H3. destruct H3 as [H3|H3].
+      - left. apply negb_true_iff. exact H3.
+      - right. destruct fixed as [v|]; [exists v; reflexivity | discriminate].
+    Qed.
+
+    Lemma file_read j f i b : j < n -> S j = SFile f i b -> exists blk, R j = RdOk blk (block_len bs (cf_size f) i).
+    Proof.
+      intros Hj Hs. destruct pro_flags as (He & Hi & _).
+      destruct (ss_spec o iob c fs faults pos Hbail) as (Xf & Xe & _ & Xi & _).
+      apply (rd_file c fs faults pos j f i b (Hwf j) Hs).
+      - rewrite <- Hs. apply Xf. exact Hj.
+      - rewrite <- Hs. apply Xe; assumption.
+      - rewrite <- Hs. apply Xi; assumption.
+    Qed.
+
+    Lemma raw_val j : j < n -> nth j (vec_of rds) 0%N = match R j with RdOk blk _ => blk | _ => 0%N end.
+    Proof. intro Hj. rewrite nth_vec_of. unfold rds. rewrite nth_ss_rds by exact Hj. reflexivity. Qed.
+
+    Lemma file_hash j f i b blk len :
+      j < n -> S j = SFile f i b -> R j = RdOk blk len ->
+      (fb_state b = SBlk -> hval_eqb (hashf blk len) (fb_hash b) = true) ->
+      hashf blk len = newh b (ss_nh A j).
+    Proof.
+      intros Hj Hs Hr Hblk. destruct pro_flags as (He & _ & _).
+      destruct (ss_spec o iob c fs faults pos Hbail) as (_ & Xe & _).
+      unfold A. rewrite (ss_nh_char o iob c fs faults pos Hbail j Hj). fold (S j) (R j). rewrite Hs, Hr.
+      specialize (Xe He j Hj). fold (S j) (R j) in Xe. rewrite Hs, Hr in Xe. simpl in Xe.
+      unfold x_nh, newh. destruct (fb_state b) eqn:E.
+      - apply hval_eqb_eq. apply Hblk. reflexivity.
+      - reflexivity.
+      - apply negb_false_iff in Xe. apply hval_eqb_eq. exact Xe.
+    Qed.
+
+    Lemma vec_ok :
+      let vec := ss_vec fixed rds in
+      length vec = n /\
+      forall j, j < n ->
+        match S j with
+        | SFile f i b => hashf (nth j vec 0%N) (block_len bs (cf_size f) i) = newh b (ss_nh A j)
+        | _ => nth j vec 0%N = 0%N
+        end.
+    Proof.
+      destruct pro_flags as (He & Hi & Hs).
+      destruct (ss_spec o iob c fs faults pos Hbail) as (Xf & Xe & Xs & Xi & Xn & FL & NH).
+      fold A in Xe, Xs, Xi, Xn, FL, NH.
+      assert (Hlen : length (vec_of rds) = n).
+      { unfold vec_of. rewrite map_length. apply length_ss_rds. }
+      assert (Hnf : forall j, j < n -> slot_has_file (S j) = false -> nth j (vec_of rds) 0%N = 0%N).
+      { intros j Hj H. rewrite raw_val by exact Hj. unfold R. rewrite rd_nonfile by exact H. reflexivity. }
+      pose proof file_read as FR. pose proof file_hash as FH. pose proof raw_val as RV.
+      unfold ss_vec. destruct fixed as [w|] eqn:Efix.
+      - (* repaired on the fly *)
+        unfold fixed, ss_fixed in Efix.
+        destruct (negb (a_err A) && negb (a_io A) && a_silent A); [|discriminate Efix].
+        apply onthefly_spec in Efix. destruct Efix as [v [Ew Hchk]]. fold rds in Ew.
+        split; [rewrite Ew, map_length, seq_length; exact Hlen|].
+        intros j Hj. rewrite Ew. rewrite nth_map_seq by (rewrite Hlen; exact Hj).
+        assert (Hnth : nth j (slots c pos) SEmpty = S j) by reflexivity.
+        destruct (S j) as [|f i b|h] eqn:Esj.
+        + unfold of_isblk. rewrite Hnth. simpl. apply Hnf; [exact Hj | rewrite Esj; reflexivity].
+        + destruct (FR j f i b Hj Esj) as [blk Hr].
+          destruct (fb_state b) eqn:Est.
+          * (* BLK *)
+            assert (Hib : of_isblk (slots c pos) j = true) by (unfold of_isblk; rewrite Hnth, Est; reflexivity).
+            rewrite Hib. simpl.
+            destruct (existsb (fun jl : nat * N => Nat.eqb (fst jl) j) (of_sorted (slots c pos) (a_failed A))) eqn:Ex.
+            -- apply existsb_exists in Ex. destruct Ex as [jl [Hin Hk]]. apply Nat.eqb_eq in Hk.
+               specialize (Hchk jl Hin). rewrite Hk in Hchk. specialize (Hchk Hib). rewrite Hnth in Hchk.
+               unfold newh. rewrite Est.
+               replace (block_len bs (cf_size f) i) with (snd jl); [exact Hchk|].
+               unfold of_sorted in Hin. apply filter_In in Hin. destruct Hin as [Hin Hex].
+               apply in_map_iff in Hin. destruct Hin as [j' [Ejl _]]. subst jl. simpl in *. subst j'.
+               destruct (find (fun f0 : nat * N => Nat.eqb (fst f0) j) (a_failed A)) as [f0|] eqn:Ef.
+               ++ apply find_some in Ef. destruct Ef as [Hf0 Hk0]. apply Nat.eqb_eq in Hk0.
+                  apply FL in Hf0. destruct Hf0 as [j' [Hj' Hf0]].
+                  assert (j' = j).
+                  { unfold x_failed in Hf0. destruct (slot_of c pos j') as [|f' i' b'|h']; simpl in Hf0.
+                    - destruct Hf0.
+                    - destruct (fb_state b'); [destruct (ss_rd c fs faults pos j'); simpl in Hf0; try (destruct Hf0); [];
+                                                destruct (hval_eqb _ _); simpl in Hf0; [destruct Hf0|] | |];
+                        (destruct Hf0 as [Hf0|[]]; subst f0; simpl in Hk0; exact Hk0).
+                    - destruct Hf0 as [Hf0|[]]; subst f0; simpl in Hk0; exact Hk0. }
+                  subst j'. fold (S j) (R j) in Hf0. rewrite Esj, Hr in Hf0. simpl in Hf0. rewrite Est in Hf0.
+                  destruct (hval_eqb (hashf blk (block_len bs (cf_size f) i)) (fb_hash b)); [destruct Hf0|].
+                  destruct Hf0 as [Hf0|[]]. subst f0. reflexivity.
+               ++ apply existsb_exists in Hex. destruct Hex as [f0 [Hf0 Hk0]].
+                  apply (find_none _ _ Ef) in Hf0. congruence.
+            -- rewrite RV by exact Hj. rewrite Hr.
+               apply (FH j f i b blk _ Hj Esj Hr). intros _.
+               destruct (hval_eqb (hashf blk (block_len bs (cf_size f) i)) (fb_hash b)) eqn:Em; [reflexivity|].
+               exfalso.
+               assert (Hin : In (j, block_len bs (cf_size f) i) (a_failed A)).
+               { apply FL. exists j. split; [exact Hj|]. fold (S j) (R j). rewrite Esj, Hr. simpl. rewrite Est, Em. left. reflexivity. }
+               assert (Hex : existsb (fun f0 : nat * N => Nat.eqb (fst f0) j) (a_failed A) = true).
+               { apply existsb_exists. eexists. split; [exact Hin|]. simpl. apply Nat.eqb_refl. }
+               assert (Hex2 : existsb (fun jl : nat * N => Nat.eqb (fst jl) j) (of_sorted (slots c pos) (a_failed A)) = true).
+               { apply existsb_exists.
+                 exists (j, match find (fun f0 : nat * N => Nat.eqb (fst f0) j) (a_failed A) with Some f0 => snd f0 | None => 0%N end).
+                 split; [|simpl; apply Nat.eqb_refl].
+                 unfold of_sorted. apply filter_In. split; [|simpl; exact Hex].
+                 apply in_map_iff. exists j. split; [reflexivity|]. apply in_seq. rewrite slots_length. fold n. lia. }
+               congruence.
+          * (* CHG *)
+            assert (Hib : of_isblk (slots c pos) j = false) by (unfold of_isblk; rewrite Hnth, Est; reflexivity).
+            rewrite Hib. simpl. rewrite RV by exact Hj. rewrite Hr.
+            apply (FH j f i b blk _ Hj Esj Hr). intro H. congruence.
+          * (* REP *)
+            assert (Hib : of_isblk (slots c pos) j = false) by (unfold of_isblk; rewrite Hnth, Est; reflexivity).
+            rewrite Hib. simpl. rewrite RV by exact Hj. rewrite Hr.
+            apply (FH j f i b blk _ Hj Esj Hr). intro H. congruence.
+        + unfold of_isblk. rewrite Hnth. simpl. apply Hnf; [exact Hj | rewrite Esj; reflexivity].
+      - (* nothing to repair: no silent error *)
+        destruct Hs as [Hs|[v Hv]]; [|discriminate Hv].
+        split; [exact Hlen|]. intros j Hj.
+        destruct (S j) as [|f i b|h] eqn:Esj.
+        + apply Hnf; [exact Hj | rewrite Esj; reflexivity].
+        + destruct (FR j f i b Hj Esj) as [blk Hr].
+          rewrite RV by exact Hj. rewrite Hr.
+          apply (FH j f i b blk _ Hj Esj Hr). intro Est.
+          specialize (Xs Hs j Hj). fold (S j) (R j) in Xs. rewrite Esj, Hr in Xs. simpl in Xs. rewrite Est in Xs.
+          apply negb_false_iff in Xs. exact Xs.
+        + apply Hnf; [exact Hj | rewrite Esj; reflexivity].
+    Qed.
+
+    (* completed without rewriting the parity: the stripe was quiet and no recorded hash changes *)
+    Lemma noneed_quiet :
+      a_need A = false ->
+      forall j, j < n -> slot_quiet (S j) /\
+                         match S j with SFile f i b => newh b (ss_nh A j) = fb_hash b | _ => True end.
+    Proof.
+      intros Hn j Hj.
+      destruct (ss_spec o iob c fs faults pos Hbail) as (_ & _ & _ & _ & Xn & _).
+      specialize (Xn Hn j Hj). fold (S j) (R j) in Xn.
+      destruct (S j) as [|f i b|h] eqn:Esj; simpl; auto.
+      - destruct (file_read j f i b Hj Esj) as [blk Hr]. rewrite Hr in Xn. simpl in Xn.
+        unfold A. rewrite (ss_nh_char o iob c fs faults pos Hbail j Hj). fold (S j) (R j). rewrite Esj, Hr.
+        unfold newh, x_nh. destruct (fb_state b) eqn:Est; try discriminate Xn.
+        + auto.
+        + destruct (h_unique (fb_hash b)) eqn:Eu; [|discriminate Xn].
+          apply negb_false_iff in Xn. apply hval_eqb_eq in Xn. auto.
+      - simpl in Xn. discriminate Xn.
+    Qed.
+  End Vec.
+
+  (* ---- the stripe at pos after sync_stripe ---- *)
+  Lemma stripe_local o now iob c par fs faults pos :
+    faults_wf c pos faults ->
+    let r := sync_stripe hashf bs nlev o now iob c par fs faults pos in
+    stripe_synced (so_content r) pos ->
+    match so_write r with
+    | Some vec => enc_ok hashf bs (so_content r) pos vec
+    | None => stripe_quiet c pos /\ forall v, enc_ok hashf bs c pos v -> enc_ok hashf bs (so_content r) pos v
+    end.
+  Proof.
+    intros Hwf. rewrite sync_stripe_eq. cbv zeta.
+    destruct (a_bail (ss_A o iob c fs faults pos)) eqn:Hbail; simpl.
+    { intro H. split; [apply stripe_synced_quiet; exact H | auto]. }
+    set (A := ss_A o iob c fs faults pos) in *.
+    set (fixed := ss_fixed A c par fs faults pos).
+    destruct (ss_proceed A fixed) eqn:Hpro.
+    - (* completed *)
+      set (c' := mkC _ _ _).
+      assert (Hslot : forall j, slot_of c' pos j =
+                                match slot_of c pos j with
+                                | SFile f i b => SFile (mapf (gC pos (ss_nh A j)) f) i (mkFB SBlk pos (newh b (ss_nh A j)))
+                                | _ => SEmpty
+                                end).
+      { intro j. unfold c'. rewrite ss_disks_slot. rewrite slot_of_nth.
+        destruct (nth j (c_disks c) None) as [d|]; [|reflexivity]. apply complete_disk_slot. }
+      assert (Hl : length (c_disks c') = length (c_disks c)).
+      { unfold c'. simpl. unfold ss_disks. apply length_map_combine_seq. }
+      destruct (vec_ok o iob c par fs faults pos Hbail Hwf Hpro) as [Vl Vj].
+      fold A in Vj. fold fixed in Vl, Vj.
+      intro Hsyn. simpl. destruct (a_need A) eqn:Hn.
+      + (* parity written *)
+        split; [rewrite Hl; exact Vl|]. intros j Hj. rewrite Hl in Hj. specialize (Vj j Hj). rewrite Hslot.
+        destruct (slot_of c pos j) as [|f i b|h]; simpl; exact Vj.
+      + (* parity kept *)
+        pose proof (noneed_quiet o iob c par fs faults pos Hbail Hwf Hpro Hn) as HQ. fold A in HQ.
+        split.
+        * split.
+          -- intro j. destruct (Nat.lt_ge_cases j (length (c_disks c))) as [Hj|Hj].
+             ++ apply HQ. exact Hj.
+             ++ rewrite slot_of_out by exact Hj. exact I.
+          -- destruct Hsyn as [_ [j Hf]]. exists j. rewrite Hslot in Hf.
+             destruct (slot_of c pos j); simpl in *; congruence.
+        * intros v [E1 E2]. split; [congruence|]. intros j Hj. rewrite Hl in Hj.
+          specialize (E2 j Hj). destruct (HQ j Hj) as [HQ1 HQ2]. rewrite Hslot.
+          destruct (slot_of c pos j) as [|f i b|h]; simpl in *; [exact E2 | congruence | destruct HQ1].
+    - (* skipped *)
+      set (c' := mkC _ _ _).
+      assert (Hslot : forall j, slot_of c' pos j =
+                                match slot_of c pos j with
+                                | SFile f i b =>
+                                    match ss_nh A j with
+                                    | Some h => SFile (mapf (gS pos h) f) i (if bstate_eqb (fb_state b) SChg then mkFB SChg pos h else b)
+                                    | None => SFile f i b
+                                    end
+                                | s => s
+                                end).
+      { intro j. unfold c'. rewrite ss_disks_slot. rewrite slot_of_nth.
+        destruct (nth j (c_disks c) None) as [d|]; [|reflexivity]. apply skipped_disk_slot. }
+      assert (Hl : length (c_disks c') = length (c_disks c)).
+      { unfold c'. simpl. unfold ss_disks. apply length_map_combine_seq. }
+      intro Hsyn. simpl.
+      assert (Hv : forall j, sview_of (slot_of c' pos j) = sview_of (slot_of c pos j)).
+      { intro j. destruct Hsyn as [Hs _]. specialize (Hs j). rewrite Hslot in *.
+        destruct (slot_of c pos j) as [|f i b|h]; try reflexivity.
+        destruct (ss_nh A j) as [h|]; [|reflexivity]. simpl in *.
+        destruct (fb_state b); simpl in *; try reflexivity; discriminate Hs. }
+      split.
+      + apply stripe_synced_quiet. eapply same_views_synced; [|exact Hsyn].
+        split; [symmetry; exact Hl | intro j; symmetry; apply Hv].
+      + intros v Hv'. eapply same_views_enc; [|exact Hv']. split; [exact Hl | exact Hv].
+  Qed.
+
+  Lemma sync_stripe_local_upd o now iob c par fs faults pos :
+    local_upd_c pos c (so_content (sync_stripe hashf bs nlev o now iob c par fs faults pos)).
+  Proof.
+    rewrite sync_stripe_eq. cbv zeta.
+    destruct (a_bail (ss_A o iob c fs faults pos)); simpl; [apply local_upd_c_refl|].
+    destruct (ss_proceed _ _); apply ss_disks_local; intros j d; [apply complete_disk_local | apply skipped_disk_local].
+  Qed.
+
+  (* 1. the block map *)
+  Theorem sync_stripe_map o now iob c par fs faults pos :
+    MapOK c -> MapOK (so_content (sync_stripe hashf bs nlev o now iob c par fs faults pos)).
+  Proof. apply local_upd_c_mapok with (pos := pos). apply sync_stripe_local_upd. Qed.
+
+  (* 2. frame: nothing changes at another position; file identities never change *)
+  Theorem sync_stripe_other_stripes o now iob c par fs faults pos :
+    let c' := so_content (sync_stripe hashf bs nlev o now iob c par fs faults pos) in
+    map disk_attrs (c_disks c') = map disk_attrs (c_disks c) /\
+    forall p, p <> pos ->
+      same_views c c' p
+      /\ nth p (c_info c') None = nth p (c_info c) None
+      /\ (stripe_synced c' p <-> stripe_synced c p)
+      /\ (stripe_quiet c' p <-> stripe_quiet c p)
+      /\ (forall v, enc_ok hashf bs c' p v <-> enc_ok hashf bs c p v).
+  Proof.
+    intro c'. pose proof (sync_stripe_local_upd o now iob c par fs faults pos) as HU. fold c' in HU.
+    split; [eapply local_upd_c_attrs; exact HU|].
+    intros p Hp. pose proof (local_upd_c_views pos c c' p HU Hp) as HV.
+    pose proof (same_views_sym _ _ _ HV) as HV'.
+    split; [exact HV|]. split.
+    - unfold c'. rewrite sync_stripe_eq. cbv zeta.
+      destruct (a_bail (ss_A o iob c fs faults pos)); simpl; [reflexivity|]. apply ss_info_other. exact Hp.
+    - split; [split; apply same_views_synced; assumption|].
+      split; [split; apply same_views_quiet; assumption|].
+      intro v. split; apply same_views_enc; assumption.
+  Qed.
+
+  Lemma in_set_parity par pos v lv' :
+    In lv' (set_parity par pos v) -> exists lv, In lv par /\ lv' = set_ext PNone pos (PEnc v) lv.
+  Proof. unfold set_parity. intro H. apply in_map_iff in H. destruct H as [lv [E H]]. exists lv. auto. Qed.
+
+  (* 3. the parity invariant through one iteration *)
+  Theorem sync_stripe_par o now iob c par fs faults pos :
+    faults_wf c pos faults -> ParOK hashf bs c par -> PastOK hashf bs c par pos ->
+    let r := sync_stripe hashf bs nlev o now iob c (map (fun lv => nth pos lv PNone) par) fs faults pos in
+    let par' := match so_write r with Some v => set_parity par pos v | None => par end in
+    ParOK hashf bs (so_content r) par'.
+  Proof.
+    intros Hwf HP HPast r par' p Hsyn lv' Hin.
+    destruct (Nat.eq_dec p pos) as [->|Hp].
+    - pose proof (stripe_local o now iob c (map (fun lv => nth pos lv PNone) par) fs faults pos Hwf) as HL.
+      cbv zeta in HL. fold r in HL. specialize (HL Hsyn). unfold par' in Hin.
+      destruct (so_write r) as [vec|].
+      + apply in_set_parity in Hin. destruct Hin as [lv [_ ->]]. exists vec. split; [apply nth_set_ext_same | exact HL].
+      + destruct HL as [HQ HT]. destruct (HPast HQ lv' Hin) as [v [E1 E2]]. exists v. split; [exact E1 | apply HT; exact E2].
+    - destruct (sync_stripe_other_stripes o now iob c (map (fun lv => nth pos lv PNone) par) fs faults pos) as [_ HF].
+      fold r in HF. destruct (HF p Hp) as (HV & _ & HS & _ & HE).
+      apply HS in Hsyn. specialize (HP p Hsyn). unfold par' in Hin.
+      destruct (so_write r) as [vec|].
+      + apply in_set_parity in Hin. destruct Hin as [lv [Hlv ->]].
+        destruct (HP lv Hlv) as [v [E1 E2]]. exists v. split; [|apply HE; exact E2].
+        rewrite nth_set_ext_other by exact Hp. exact E1.
+      + destruct (HP lv' Hin) as [v [E1 E2]]. exists v. split; [exact E1 | apply HE; exact E2].
+  Qed.
 End Stripe.
